@@ -71,7 +71,7 @@ def run_impl(sc):
                 obs.append(f"ok:{n}")
             else:
                 raise AssertionError(op)
-        except Exception as e:
+        except BaseException as e:
             obs.append("raise:" + exn_class(e))
         rems.append(sum(len(e[1]) for e in s.inbox if e[0] == "D"))
         marks.append(len(s.log))
